@@ -49,6 +49,25 @@ class Obj:
         return f"<Obj {self.label} {sorted(self.fields)}>"
 
 
+class Sym:
+    """Symbolic application produced when `Folder.symbolic` is set: a term, not a value."""
+
+    def __init__(self, fn, args=(), kw=None):
+        self.fn = fn
+        self.args = tuple(args)
+        self.kw = dict(kw or {})
+
+    def walk(self):
+        yield self
+        for a in list(self.args) + list(self.kw.values()):
+            if isinstance(a, Sym):
+                yield from a.walk()
+
+    def __repr__(self):
+        inner = ", ".join([repr(a) for a in self.args] + [f"{k}={v!r}" for k, v in self.kw.items()])
+        return f"{self.fn}({inner})"
+
+
 class Opaque:
     """A value we know nothing about except an abstract type tag (for isinstance)."""
 
@@ -237,8 +256,9 @@ class Folder:
     repository functions that are themselves inside the folding language.
     """
 
-    def __init__(self, resolver=None, max_steps=200000, float_literals_exact=True):
+    def __init__(self, resolver=None, max_steps=200000, symbolic=False):
         self.resolver = resolver
+        self.symbolic = symbolic
         self.steps = 0
         self.max_steps = max_steps
 
@@ -303,7 +323,7 @@ class Folder:
         raise Refuse("unary op")
 
     def truth(self, v):
-        if isinstance(v, (Opaque, Arr)):
+        if isinstance(v, (Opaque, Arr, Sym)):
             raise Refuse("truth value of opaque")
         return bool(v)
 
@@ -326,7 +346,7 @@ class Folder:
         return self.ev(n.body if self.truth(self.ev(n.test, env)) else n.orelse, env)
 
     def _cmp(self, op, a, b):
-        if isinstance(a, Opaque) or isinstance(b, Opaque):
+        if isinstance(a, (Opaque, Sym, Obj)) or isinstance(b, (Opaque, Sym, Obj)):
             if isinstance(op, (ast.Is, ast.IsNot)) and (a is None or b is None):
                 return isinstance(op, ast.IsNot)
             raise Refuse("comparison with opaque value")
@@ -453,7 +473,7 @@ class Folder:
             try:
                 return self.method_call(n, env)
             except Refuse:
-                if self.resolver is None:
+                if self.resolver is None and not self.symbolic:
                     raise
         if self.resolver is not None:
             tgt = self.resolver(n)
@@ -461,6 +481,18 @@ class Folder:
                 args = [self.ev(a, env) for a in n.args]
                 kw = {k.arg: self.ev(k.value, env) for k in n.keywords if k.arg}
                 return self.call(tgt, args, kw)
+        if self.symbolic:
+            args = [self.ev(a, env) for a in n.args if not isinstance(a, ast.Starred)]
+            kw = {k.arg: self.ev(k.value, env) for k in n.keywords if k.arg}
+            if isinstance(f, ast.Attribute):
+                try:
+                    recv = self.ev(f.value, env)
+                except Refuse:
+                    recv = None
+                if isinstance(recv, (Opaque, Obj, Sym)):
+                    label = recv.label if not isinstance(recv, Sym) else repr(recv)
+                    return Sym(f"{label}.{f.attr}", args, kw)
+            return Sym(" ".join(ast.unparse(f).split()), args, kw)
         raise Refuse(f"call of {ast.unparse(f)}")
 
     # builtin models ---------------------------------------------------------------
